@@ -260,6 +260,15 @@ func c16Carousel(c *Ctx) {
 			if cl == nil {
 				return
 			}
+			// a method value of a small local type (`ForEach(eligible.add)`): the method, whose first parameter is the receiver
+			elemP := "p0"
+			if strings.HasPrefix(cl.Synthetic, "bound method wrapper") && cl.Object() != nil {
+				if tf, isF := cl.Object().(*types.Func); isF {
+					if m := p.SSA.FuncValue(tf); m != nil && m.Blocks != nil && inModule(funcPkgPath(m)) {
+						cl, elemP = m, "p1"
+					}
+				}
+			}
 			fcl := NewFlow(p, cl)
 			nApp, gated := 0, true
 			var appDst *ssa.FreeVar
@@ -278,11 +287,11 @@ func c16Carousel(c *Ctx) {
 					storedInto(sliceBase(c2.Call.Args[1]), func(e ssa.Value) bool { elem = fcl.K.Key(e); return false })
 					// gate: id is not in the exclusion list (any slice other than the one appended to)
 					dst := fcl.K.Key(c2.Call.Args[0])
-					if elem != "p0" {
+					if elem != elemP {
 						elemOK = false
 					}
-					if elem != "p0" || !falseOf(fcl.At(in2), func(k string) bool {
-						return strings.HasPrefix(k, "slices.Contains[") && strings.Contains(k, ", p0)") && !strings.Contains(k, "("+dst+",")
+					if elem != elemP || !falseOf(fcl.At(in2), func(k string) bool {
+						return strings.HasPrefix(k, "slices.Contains[") && strings.Contains(k, ", "+elemP+")") && !strings.Contains(k, "("+dst+",")
 					}) {
 						gated = false
 					}
